@@ -26,7 +26,7 @@ TRUSTED = ["tools/cxx2lean_eff.py stage 3 (DESIGN.md 0.7.2): StepTodos over the 
            "vos shim (virtual clock: a poll with nothing ready advances the clock by its timeout)",
            "the transcript parsers of Drive/C01.lean (lines -> Spec.C01.Obs) and Drive/C06.lean (lines -> Spec.C07.Step.Obs); the predicates "
            "themselves are Spec/C07.lean and are no longer trusted to be consistent with the model: spec_holds_on_model / "
-           "spec_holds_on_model_step prove that they accept every trace of the model. The timeout clauses of the TLS slice stay inside Drive/C18.lean"]
+           "spec_holds_on_model_step prove that they accept every trace of the model. The timeout clauses of the TLS slice are Spec/C18.lean: pollClause (Tls.Spec.specStep), accepted on every trace of the TLS glue model (Props/C18.lean: spec_holds_on_model_partial)"]
 ALL_TAGS = ["recv.none", "recv.value", "recv.unl", "recv.zero", "recv.lim", "send.all", "send.try", "send.some", "sendto", "recvfrom",
             "listen", "step.unlimited", "step.zero", "step.limited", "wait.todo", "wait.full"]
 EXHAUSTIVE = {"quick": True, "thorough": True}
